@@ -6,6 +6,7 @@ mod kern;
 mod quant;
 mod refs;
 mod seqm;
+mod stor;
 
 use refs::Sink;
 use serde_json::{Value, json};
@@ -93,6 +94,7 @@ fn run(args: vcore::Args) -> i32 {
             "ENUM/kernel" | "ENUM/exact" | "ENUM/zonemap" => kern::replay(&case),
             "ENUM/scalar" | "ENUM/binary" | "ENUM/product" => quant::replay(&case, quant_probes),
             "ENUM/db" => dbl::replay(&case),
+            "ENUM/storage" => stor::replay(&case),
             _ => vcore::machinery_failure("unknown engine in replay case"),
         };
         return vcheck::replay_report("C18", v);
@@ -384,6 +386,13 @@ fn run(args: vcore::Args) -> i32 {
             (e, n)
         });
         rep.set("database_counters", json!(*stats.lock().unwrap()));
+    }
+    // ---------------------------------------------------------------- vector storage backends
+    if want("storage") {
+        let dir = vcore::scratch_dir("c18");
+        let items: Vec<Vec<usize>> = sequences_upto(stor::NEV, 1, tier.pick(4, 5));
+        run_family("storage_sequences", &items, &mut rep, &mut sink, &mut sizes, |q, s| stor::eval_seq(q, &dir, vcore::hash_of(q) as usize, s));
+        let _ = std::fs::remove_dir_all(&dir);
     }
     rep.set("enum_families", Value::Object(sizes));
     rep.set("bounds", json!({"hnsw_depth_all_configs": d_all, "ids": 4, "alphabet_per_dim": 5, "seeds": [0, 1, 2], "m": [2, 16], "dims": [1, 2, 3], "kernel_dims": "1..=33,64,65 (+66,127,128,129,384 thorough)", "value_alphabet": [0.0, 1.0, -1.0, 1e-20, 1e20, 1e-3]}));
